@@ -98,6 +98,8 @@ def impl(case):
             rootperm = list(range(raw0.ndim))
             stage = "permute_axes"
             for k, (path, sort) in enumerate(case.get("permutes", [])):
+                if sorted(sort) != list(range(G.node_at(tree, path).ndim)):
+                    stage = "malformed"       # not a permutation of this node's axes (a recorded case of another tree): refusal is correct
                 leaf_perm_apply(tree, path, sort, tdict, k)
                 if not path:
                     rootperm = [rootperm[i] for i in sort]
@@ -106,7 +108,7 @@ def impl(case):
             out["tree_perm"] = {"raw0": raw0, "raw": raw, "rootperm": rootperm}
         except Exception as e:
             out["tree_perm"] = canon_exc(e)
-            if "raw0" in dir():
+            if "raw0" in dir() and stage != "malformed":
                 # the un-permuted tree contracted fine: re-ordering axes (valid permutations, in any argument form) must not fail
                 out["tree_perm"]["after_base_ok"] = f"{stage}: {type(e).__name__}: {e}"[:160]
     return out
